@@ -2,9 +2,10 @@
    split.message : text; width (decimal, optional '-')          -> n:hexlist(pieces) | PANIC
    split.event   : tag overhead; "s"/"-"; name; ident; host; command; max; params...
                                                                 -> n:piece|piece...   | PANIC
-   split.limit   : 005 lines                                    -> maxline,maxprefix,MaxEventLength
+   split.limit   : 005 lines (earlier connection); 005 lines (this connection)
+                                                                -> maxline,maxprefix,MaxEventLength
    split.batches / split.send :
-                   op; 005 lines; then channels (join, list) or target, text (msg, notice, action)
+                   op; 005 lines (earlier); 005 lines (this); then channels (join, list) or target, text (msg, notice, action)
                                                                 -> MaxEventLength;n:hexlist(wire lines)
    "005 lines" = number of lines (decimal), then per line: number of params, the params. *)
 Require Import Bytes Utf8 WireOut Ctcp State Split.
@@ -66,14 +67,20 @@ Fixpoint take_lines (n : nat) (args : list str) : list (list str) * list str :=
 
 Definition c005 : str := Eval vm_compute in bs "005".
 
-Definition apply_lines (ls : list (list str)) : state :=
-  fold_left (fun s ps => handle_isupport s (mkEvent None None c005 ps)) ls state_init.
+Definition apply_lines_from (s0 : state) (ls : list (list str)) : state :=
+  fold_left (fun s ps => handle_isupport s (mkEvent None None c005 ps)) ls s0.
+
+(* one client object: the lines of an earlier connection, the reset before the next
+   connection, the lines of this connection *)
+Definition apply_conn (prev cur : list (list str)) : state :=
+  apply_lines_from (reset_conn (apply_lines_from state_init prev)) cur.
 
 Definition run_split_limit (args : list str) : str :=
   match args with
   | n :: rest =>
-    let '(ls, _) := take_lines (arg_nat n) rest in
-    let s := apply_lines ls in
+    let '(prev, rest1) := take_lines (arg_nat n) rest in
+    let '(ls, _) := match rest1 with m :: r1 => take_lines (arg_nat m) r1 | [] => ([], []) end in
+    let s := apply_conn prev ls in
     show_Z (st_maxline s) ++ comma ++ show_Z (st_maxprefix s) ++ comma ++ show_Z (max_event_length s)
   | _ => bs "?bad-args"
   end.
@@ -102,8 +109,9 @@ Definition op_events (op : str) (s : state) (rest : list str) : list sevent :=
 Definition run_split_send (args : list str) : str :=
   match args with
   | op :: n :: rest =>
-    let '(ls, rest') := take_lines (arg_nat n) rest in
-    let s := apply_lines ls in
+    let '(prev, rest1) := take_lines (arg_nat n) rest in
+    let '(ls, rest') := match rest1 with m :: r1 => take_lines (arg_nat m) r1 | [] => ([], []) end in
+    let s := apply_conn prev ls in
     match send_all s (op_events op s rest') with
     | Panic => bs "PANIC"
     | Ok lines => show_Z (max_event_length s) ++ semi ++ counted lines
